@@ -24,6 +24,7 @@ NMIN = {"quick": 150, "thorough": 3000}
 NGROW = {"quick": 150, "thorough": 3000}
 NREGSC = {"quick": 90, "thorough": 1500}
 NFAILPT = {"quick": 50, "thorough": 900}
+NNANREG = {"quick": 80, "thorough": 1500}
 CASE_TIMEOUT = {"quick": 300, "thorough": 900}
 NSAMPLES = 5
 ABANDON_MSGS = ("MAXFUN", "sufficiently small", "model increase", "multiple constraints", "NaN received")
@@ -33,7 +34,7 @@ def cases(tier, seed):
     out = []
     i = 0
     for t, n in (("enum", NENUM[tier]), ("proj", NPROJ[tier]), ("rand", NRAND[tier]), ("atmin", NMIN[tier]), ("grow", NGROW[tier]), ("regscaled", NREGSC[tier]),
-                 ("failpt", NFAILPT[tier])):
+                 ("failpt", NFAILPT[tier]), ("nanregion", NNANREG[tier])):
         for _ in range(n):
             out.append(dict(i=i, seed=seed, type=t))
             i += 1
@@ -77,6 +78,34 @@ def make_cfg(seed, i, typ):
             x0 = np.array(cfg["x0"])
             cfg["lower"] = (x0 - 0.5 - r()).tolist()
             cfg["upper"] = (x0 + 0.5 + r()).tolist()
+    elif typ == "nanregion":
+        # objective defined only on a disc around (or next to) x0, NaN outside, radius comparable to rhobeg: initial points,
+        # geometry steps and the points a soft restart places around the incumbent land outside. With restarts in every mode.
+        n = int(rng.integers(1, 4))
+        m = int(rng.integers(n, n + 3))
+        x0 = rng.normal(size=n)
+        rhobeg = float(10.0 ** rng.uniform(-1, 0))
+        R = rhobeg * float(gen.pick(rng, [0.45, 0.9, 1.5, 3.0]))
+        off = rng.normal(size=n)
+        off = off / np.linalg.norm(off) * R * float(gen.pick(rng, [0.0, 0.0, 0.5, 0.9]))
+        spec = dict(kind="nandisc", n=n, m=m, pseed=int(rng.integers(0, 2 ** 31)), scale=1.0, centre=(x0 + off).tolist(), radius=R,
+                    base=gen.pick(rng, ["lin", "sin"]))
+        up = {}
+        mode = gen.pick(rng, ["soft", "soft", "soft", "hard", "none"])
+        if mode != "none":
+            up["restarts.use_restarts"] = True
+            up["restarts.max_unsuccessful_restarts"] = int(gen.pick(rng, [2, 3, 10]))
+            if mode == "hard":
+                up["restarts.use_soft_restarts"] = False
+            else:
+                if r() < 0.3:
+                    up["restarts.soft.move_xk"] = False
+                if r() < 0.3:
+                    up["restarts.soft.num_geom_steps"] = int(rng.integers(1, 4))
+        cfg = dict(prob=spec, x0=x0.tolist(), lower=None, upper=None, user_params=up,
+                   args=dict(maxfun=int(gen.pick(rng, [20, 40, 80])), rhobeg=rhobeg, rhoend=rhobeg * float(10.0 ** rng.uniform(-4, -1.5))))
+        if r() < 0.3:
+            cfg["args"]["npt"] = int(rng.integers(n + 1, 2 * n + 2))
     elif typ == "failpt":
         # reference run for the failpoint enumeration (LinAlgError in a Lagrange solve / 'model increases' verdict in the
         # acceptance test, at calls spread over the run): restart-heavy, growing and regression variants, bounds
